@@ -695,6 +695,8 @@ class Emit:
         if name == "Option": return f"(Option {self.ty(args[0])})"
         if name in ("Vec", "VecDeque"): return f"(List {self.ty(args[0])})"
         if name == "Box" or name == "Arc" or name == "Rc": return self.ty(args[0])
+        if name in ("HashMap", "BTreeMap") and len(args) == 2: return f"(Rs.HashMap {self.ty(args[0])} {self.ty(args[1])})"
+        if name in ("HashSet", "BTreeSet") and len(args) == 1: return f"(Rs.HashSet {self.ty(args[0])})"
         if name == "Result":
             err = "Rs.Err" if len(args) < 2 else self.ty(args[1])
             return f"(Except {err} {self.ty(args[0])})"
@@ -922,6 +924,8 @@ class Emit:
             if path == ["Ok"]: return f"(Except.ok {a[0]})"
             if path == ["Err"]: return f"(Except.error {a[0]})"
             if path in (["Vec", "new"], ["Vec", "with_capacity"]): return "[]"
+            if len(path) == 2 and path[1] == "default" and not args and (path[0] in self.structs or path[0] == "Self"):
+                return f"(default : {self.cur_owner if path[0] == 'Self' else path[0]})"
             if path == ["String", "new"]: return "[]"
             if path in (["PathBuf", "from"], ["String", "from"]): return a[0]
             lf = self.fn_ref(path)
@@ -976,6 +980,22 @@ class Emit:
                 if sub.eat(";"): return f"(List.replicate {self.ex(sub.expr())} {self.ex(xs[0])})"
                 if not sub.eat(","): break
             return "[" + ", ".join(self.ex(x) for x in xs) + "]"
+        if name == "format":
+            sub = P(list(e[2]) + [("eof", "", 0)], "macro")
+            t = sub.peek()
+            if t[0] != "str": raise Unsupported("format! without a literal format string")
+            sub.i += 1; fmt = t[1]; args = []
+            while sub.eat(","):
+                if sub.peek()[0] == "eof": break
+                args.append(sub.expr())
+            pieces = re.split(r"\{\}", fmt)
+            if "{" in "".join(pieces) or "}" in "".join(pieces): raise Unsupported(f"format! with a non-trivial placeholder: {fmt!r}")
+            if len(pieces) != len(args) + 1: raise Unsupported("format! argument count")
+            parts = []
+            for i, pc in enumerate(pieces):
+                if pc: parts.append(lean_chars(pc))
+                if i < len(args): parts.append(f"(Rs.display {self.atom(args[i])})")
+            return "(Rs.concat [" + ", ".join(parts) + "])"
         if name in self.unit.get("macro_externs", {}):
             self.cur_uses_ext = True
             return f"(ext.{self.unit['macro_externs'][name]} ())"
@@ -1136,6 +1156,10 @@ class Emit:
                         c = " ".join([ln] + pre + [x] + [self.atom(a) for a in args])
                         if it["ret"] is None: return [ind + f"{x} := {c}"]
                         raise Unsupported("discarded result of a &mut self method")
+            if recv[0] == "field" and recv[1][0] == "path" and len(recv[1][1]) == 1 and m in ("insert", "push", "remove", "clear", "extend"):
+                x = lname(recv[1][1][0]); f = lname(recv[2])
+                call = " ".join([f"Rs.{m}_mut", f"{x}.{f}"] + [self.atom(a) for a in args])
+                return [ind + f"{x} := {{ {x} with {f} := {call} }}"]
             raise Unsupported(f"method call statement .{m}()")
         if k == "try":
             return [ind + f"let _ ← {self.ex(e[1])}"]
